@@ -120,6 +120,10 @@ type vScenarioC13 struct {
 	Savers       int
 	SlowEvery    int
 	ReleaseEvery time.Duration
+	// FinishInStale > 0: the holder finishes (Unlock) that long after the first lock file it
+	// writes during a forced refresh of its stale lock - i.e. inside refreshStaleLock, between
+	// the creation of the replacement lock and its adoption (whichever of this and Finish comes first)
+	FinishInStale time.Duration `json:",omitempty"`
 }
 
 var (
@@ -171,6 +175,9 @@ func genScenarioC13(t *rapid.T) vScenarioC13 {
 		sc.Savers = rapid.IntRange(3, 6).Draw(t, "savers")
 		sc.SlowEvery = rapid.IntRange(1, 3).Draw(t, "slowEvery")
 		sc.ReleaseEvery = rapid.SampledFrom([]time.Duration{20 * time.Second, 45 * time.Second, 90 * time.Second, 4 * time.Minute}).Draw(t, "releaseEvery")
+	}
+	if rapid.IntRange(0, 2).Draw(t, "finishInStale") == 0 {
+		sc.FinishInStale = time.Duration(rapid.IntRange(1, 400).Draw(t, "finishInStaleMs")) * time.Millisecond
 	}
 	return sc
 }
@@ -230,6 +237,8 @@ type vHistC13 struct {
 	changed    chan struct{} // closed and replaced whenever the counters change
 	stopped    bool
 
+	staleSave       chan struct{} // closed at the first lock-file save while the backend is frozen (forced stale refresh)
+	staleSaveSeen   bool
 	removeFaultHit  bool
 	othersRemoved   int
 	workloadSaves   int
@@ -302,6 +311,10 @@ func (s *vStoreC13) Save(ctx context.Context, hd backend.Handle, rd backend.Rewi
 	defer h.mu.Unlock()
 	if _, ok := h.files[hd]; ok {
 		return errors.New("c13: file already exists")
+	}
+	if hd.Type == backend.LockFile && h.frozen && !h.staleSaveSeen && h.staleSave != nil {
+		h.staleSaveSeen = true
+		close(h.staleSave)
 	}
 	if hd.Type != backend.LockFile {
 		h.inStore++
@@ -825,7 +838,7 @@ func runScenarioC13(t *testing.T, sc *vScenarioC13) *vResultC13 {
 	}
 	synctest.Test(t, func(t *testing.T) {
 		h := &vHistC13{start: time.Now(), sc: sc, files: map[backend.Handle][]byte{}, lockTime: map[string]time.Duration{},
-			expected: map[string]bool{}, classes: map[string]bool{}, slowNames: map[string]bool{}, changed: make(chan struct{})}
+			expected: map[string]bool{}, classes: map[string]bool{}, slowNames: map[string]bool{}, changed: make(chan struct{}), staleSave: make(chan struct{})}
 		res.h = h
 
 		// production wiring (global.wrapBackend): sema -> logger -> inner hook -> retry -> outer hook
@@ -943,12 +956,26 @@ func runScenarioC13(t *testing.T, sc *vScenarioC13) *vResultC13 {
 		}()
 
 		timer := time.NewTimer(sc.Finish - h.now())
+		var inStale <-chan struct{}
+		if sc.FinishInStale > 0 {
+			inStale = h.staleSave
+		}
 		select {
 		case <-timer.C:
 			h.mu.Lock()
 			if lctx.Err() == nil {
 				h.finishing, h.finishAt = true, h.now()
 				h.logf("holder finishes normally")
+			}
+			h.mu.Unlock()
+		case <-inStale:
+			timer.Stop()
+			time.Sleep(sc.FinishInStale)
+			h.mu.Lock()
+			if lctx.Err() == nil {
+				h.finishing, h.finishAt = true, h.now()
+				h.classes["finish-inside-forced-stale-refresh"] = true
+				h.logf("holder finishes %v after the replacement lock of the forced stale refresh was written", sc.FinishInStale)
 			}
 			h.mu.Unlock()
 		case <-lctx.Done():
